@@ -158,7 +158,9 @@ def _mc(ctx):
     wd = ctx.stage("mc", FAMS)
     c = _consts(ctx, "mc")
     rig.write_cfg(wd / "MC_Const.cfg", constants=c, invariants=MC_INVS)
-    r = ctx.tlc(wd, "MC_Const", workers=ctx.pick(4, rig.NCPU), timeout=1500, coverage=not ctx.quick, extra=["-continue"])
+    # (no -coverage: TLC's cost model runs out of memory on the recursive BigInt operators; MC_Const computes and
+    #  prints the set of actions that no operand pair enables)
+    r = ctx.tlc(wd, "MC_Const", workers=ctx.pick(4, rig.NCPU), timeout=1500, extra=["-continue"])
     if not r.ok and not r.invariant_violated:
         raise Infra(f"MC_Const failed: {wd}/MC_Const.out\n" + rig.tail(r.out, 30))
     return r, wd, c["W"]
@@ -183,8 +185,10 @@ def run(ctx, replay_ids=None):
                 k = r.out.find("Error: Invariant")
                 ctx.cov["model_counterexample"] = {"invariants": model_findings, "tlc_out": str(wd / "MC_Const.out"),
                                                    "first": r.out[k:k + 700]}
-            if not ctx.quick:
-                ctx.cov["actions_never_taken"] = r.coverage_zero()
+            m = __import__("re").search(r'<<"actions_never_taken", \{(.*?)\}>>', r.out)
+            if not m:
+                raise Infra("MC_Const did not print actions_never_taken")
+            ctx.cov["actions_never_taken"] = __import__("re").findall(r'"(\w+)"', m.group(1))
     cases = sorted((c for s in shards for c in s), key=lambda c: c["id"])
     ctx.cov["cases_exported"] = len(cases)
     if replay_ids is not None:
